@@ -209,6 +209,9 @@ func (r *run) afterEvent(e Ev) {
 	r.held = keep
 	r.settle(kernel.NewRng(e.S ^ 0x5eed))
 	r.mon.afterEvent(r)
+	if r.cfg.Observe {
+		r.noteVersions()
+	}
 	// state digest for the event log
 	h := kernel.NewHasher()
 	for _, a := range r.w.actors {
